@@ -9,7 +9,7 @@ use std::io::{Read, Write};
 use std::net::Shutdown;
 use std::time::{Duration, Instant};
 
-pub const WAYS: [&str; 7] = ["close", "quit", "quitq", "midrequest", "protoerr", "oversize", "idle"];
+pub const WAYS: [&str; 8] = ["close", "quit", "quitq", "midrequest", "protoerr", "oversize", "idle", "idlemid"];
 
 struct Conn {
     id: u64,
@@ -69,8 +69,14 @@ pub fn gen_scenario(rng: &mut SmallRng, limit: u32) -> Value {
             let i = if rng.gen_bool(0.8) { rng.gen_range(0..std::cmp::min(open.len(), limit as usize)) } else { rng.gen_range(0..open.len()) };
             let id = open.remove(i);
             let mut way = if i >= limit as usize { "close" } else { *WAYS.choose(rng).unwrap() };
+            // every scenario has both kinds of idle ending (they are the slow ones: once each, first)
+            if i < limit as usize && idles == 0 {
+                way = "idlemid";
+            } else if i < limit as usize && idles == 1 {
+                way = "idle";
+            }
             // waiting for the receive timeout is slow: at most two such endings per scenario
-            if way == "idle" {
+            if way == "idle" || way == "idlemid" {
                 if idles >= 2 { way = "quit"; } else { idles += 1; }
             }
             steps.push(json!({"a": "end", "id": id, "way": way}));
@@ -128,7 +134,10 @@ pub fn run_scenario_on(sc: &Value, port: u16, hooks: bool, out: &mut dyn Write, 
                 let noop = Frame::consistent(0x0a, &[], &[], &[], id as u32, 0);
                 let _ = c.s.write_all(&noop.bytes());
                 let mut conn = Conn { id, c, answered: false, ended: false };
-                if poll_answer(&mut conn, settle) {
+                // a fresh connection on a server with free slots gets a generous window (it must be served); the
+                // others are only classified (served now / waiting)
+                let window = if id >= 1000 && id < 1000 + limit as u64 { Duration::from_millis(4000) } else { settle };
+                if poll_answer(&mut conn, window) {
                     evs.push((seq(), json!({"e": "answered", "id": id})));
                 } else {
                     evs.push((seq(), json!({"e": "silent", "id": id})));
@@ -155,12 +164,12 @@ pub fn run_scenario_on(sc: &Value, port: u16, hooks: bool, out: &mut dyn Write, 
                         match way.as_str() {
                             "quit" => {
                                 let _ = c.s.write_all(&Frame::consistent(0x07, &[], &[], &[], 7, 0).bytes());
-                                let (b, eof) = read_eof(c, Duration::from_millis(1500));
+                                let (b, eof) = read_eof(c, Duration::from_millis(5000));
                                 ok = eof && parse_responses(&b).len() == 1;
                             }
                             "quitq" => {
                                 let _ = c.s.write_all(&Frame::consistent(0x17, &[], &[], &[], 7, 0).bytes());
-                                let (b, eof) = read_eof(c, Duration::from_millis(1500));
+                                let (b, eof) = read_eof(c, Duration::from_millis(5000));
                                 ok = eof && b.is_empty();
                             }
                             "midrequest" => {
@@ -171,20 +180,29 @@ pub fn run_scenario_on(sc: &Value, port: u16, hooks: bool, out: &mut dyn Write, 
                             }
                             "protoerr" => {
                                 let _ = c.s.write_all(&[0xffu8; 24]);
-                                let (_b, eof) = read_eof(c, Duration::from_millis(1500));
+                                let (_b, eof) = read_eof(c, Duration::from_millis(5000));
                                 ok = eof;
                             }
                             "oversize" => {
                                 let mut rng: SmallRng = rand::SeedableRng::seed_from_u64(id);
                                 let f = crate::tcpgen::oversize_frame(&mut rng, 11, item_limit, item_limit + 50);
                                 let _ = c.s.write_all(&f.bytes());
-                                let (b, _how) = c.read_until(Duration::from_millis(1500), &|b| tcp::has_opaque(b, 11));
+                                let (b, _how) = c.read_until(Duration::from_millis(5000), &|b| tcp::has_opaque(b, 11));
                                 ok = parse_responses(&b).iter().any(|r| r["st"].as_u64() == Some(3));
                                 let _ = c.s.shutdown(Shutdown::Both);
                             }
+                            "idlemid" => {
+                                // a complete request and the beginning of the next one in one write, then silence with the
+                                // socket open: the receive timeout must end this connection as well
+                                let mut b = Frame::consistent(0x0a, &[], &[], &[], 21, 0).bytes();
+                                b.extend_from_slice(&Frame::consistent(0x0a, &[], &[], &[], 22, 0).bytes()[..10]);
+                                let _ = c.s.write_all(&b);
+                                let (_b, eof) = read_eof(c, Duration::from_millis(timeout as u64 * 1000 + 5000));
+                                ok = eof;
+                            }
                             "idle" => {
                                 // say nothing: the server's receive timeout ends the connection
-                                let (_b, eof) = read_eof(c, Duration::from_millis(timeout as u64 * 1000 + 1500));
+                                let (_b, eof) = read_eof(c, Duration::from_millis(timeout as u64 * 1000 + 5000));
                                 ok = eof;
                             }
                             _ => {
@@ -199,7 +217,7 @@ pub fn run_scenario_on(sc: &Value, port: u16, hooks: bool, out: &mut dyn Write, 
                     if was_answered && !waiting.is_empty() {
                         let t0 = Instant::now();
                         let mut got = None;
-                        while got.is_none() && t0.elapsed() < Duration::from_millis(2000) {
+                        while got.is_none() && t0.elapsed() < Duration::from_millis(5000) {
                             for &i in &waiting {
                                 if poll_answer(&mut conns[i], Duration::from_millis(10)) {
                                     got = Some(conns[i].id);
